@@ -425,6 +425,7 @@ theorem Inv_step {O : Oracle} {c : Conf} {s : State} {op : Op} (h : Inv c s) :
   | sleep d => exact Inv_congr h0 rfl rfl rfl rfl rfl rfl
   | restart => exact restart_inv h0
   | reorder d => exact Inv_reorder d h0
+  | resetLeases => exact resetAll_inv h0
 
 /-! ### histories -/
 
